@@ -201,18 +201,32 @@ pub fn builtin_merge_patch(target: Val, patch: Val) -> Result<Val> {
 
 	let mut out = ObjValueBuilder::new();
 	for field in target_fields.union(&patch_fields) {
-		let Some(field_patch) = patch.get(field.clone())? else {
+		// Only visible fields take part in the merge, on both sides
+		if !patch_fields.contains(field) {
 			// All lazy fields might be unified into a single filtered object core instead of creating a thunk per, but this implementation is good enough.
 			let target_field = target.get_lazy(field.clone()).expect("we're iterating over fields union, if field is missing in patch - it exists in target");
 			out.field(field.clone()).thunk(target_field);
 			continue;
-		};
+		}
+		let field_patch = patch
+			.get(field.clone())?
+			.expect("field is listed in patch fields");
 		if matches!(field_patch, Val::Null) {
 			continue;
 		}
-		let field_target = target.get(field.clone())?.unwrap_or(Val::Null);
-		out.field(field.clone())
-			.value(builtin_merge_patch(field_target, field_patch)?);
+		let field_target = if target_fields.contains(field) {
+			target.get_lazy(field.clone())
+		} else {
+			None
+		};
+		// The merged value is only computed when the field is, target field included
+		out.field(field.clone()).thunk(Thunk!(move || {
+			let field_target = match field_target {
+				Some(t) => t.evaluate()?,
+				None => Val::Null,
+			};
+			builtin_merge_patch(field_target, field_patch)
+		}));
 	}
 	Ok(out.build().into())
 }
